@@ -1,5 +1,7 @@
 """C11 -- clustering / triangles / transitivity: refusals and subset restriction only."""
+import re
 from core import ASSUME_RUSTC, ASSUME_PATHS, ASSUME_AT
+from props.c01 import controlling_atoms
 from flow import Flows, L, fmt_desc, desc_mentions
 from guard import Guards, check_refusal
 import panic
@@ -124,6 +126,12 @@ def run(ctx):
                 exp9 = (lambda pt: pt[2] / (2.0 * (pt[0] * (pt[0] - 1.0) - 2.0 * pt[1]))) if want9 == "dir" else (lambda pt: pt[2] / (pt[0] * (pt[0] - 1.0)))
                 r9 = same_on_grid(f9, d9, leaf_for, exp9, grid9)
                 n9 += 1
+                # the quotient is taken on the arm on which the triangle field is NOT zero (the other arm is the constant 0)
+                for (te9, v9, a9) in controlling_atoms(f9, st9.bb):
+                    if isinstance(te9, tuple) and te9[0] == "binop" and te9[1] in ("Eq", "Ne") and desc_mentions(te9, lambda x: x[0] == "place" and x[1].split(".")[-1].endswith("triangles")) and desc_mentions(te9, lambda x: x[0] == "const" and re.match(r"const 0(_|\.0|f)", x[1]) is not None):
+                        zero_here = (te9[1] == "Eq") == bool(v9)
+                        ctx.require(not zero_here, "R-C11-9", "arm|" + sfx9.split("::")[-1], "%s divides on the arm where the triangle field is not zero" % sfx9.split("::")[-1],
+                                    "%s takes the quotient on the arm where the triangle field IS zero and returns the constant where it is not: every node with a triangle gets coefficient 0" % sfx9.split("::")[-1], loc_str(st9.span))
                 if r9[0] is None:
                     ctx.undecided("R-C11-9", "denominator|" + sfx9.split("::")[-1], "the divisor in %s is not an arithmetic expression over the degree fields (%s)" % (sfx9.split("::")[-1], fmt_desc(d9)[:120]), loc_str(st9.span))
                 else:
@@ -448,6 +456,13 @@ def counted_coefficients(ctx, prog, flows):
                 m = re.match(r"(?:const )?(-?\d+(?:\.\d+)?(?:[eE][-+]?\d+)?)_?f64$", c.strip())
                 vals.append(float(m.group(1)) if m else None)
             ok = all(v is not None and v == 0.0 for v in vals)
+            # ... strictly: `> 0` / `!= 0`; `>= 0` is true for every coefficient, so zeros are counted although count_zeros is false
+            op_ = st.rv.j["op"]
+            const_right = isinstance(norm(fl.describe(st.rv.ops[1], depth=6)), tuple) and norm(fl.describe(st.rv.ops[1], depth=6))[0] == "const"
+            strict = op_ in ("Ne", "Eq") or (op_ == "Gt" and const_right) or (op_ == "Lt" and not const_right)
+            if ok and not strict:
+                ctx.violation("R-C11-11", "zero-test-strict|%s|%d" % (b.short.split("::", 3)[-1], n), "average_clustering compares a coefficient with 0 through `%s`, which also holds for 0 itself: coefficients equal to zero are counted although count_zeros is false" % op_, loc_str(st.span))
+                continue
             ctx.require(ok, "R-C11-11", "zero-test|%s|%d" % (b.short.split("::", 3)[-1], n), "the coefficient is compared with 0",
                         "average_clustering compares a coefficient with %s instead of 0: a positive coefficient below that threshold (weighted coefficients are divided by the largest weight in the graph) is dropped from the mean although it is not zero" % consts, loc_str(st.span))
     ctx.floor("R-C11-11", "coefficient_tests", n, 1)
